@@ -206,7 +206,7 @@ class HddSplit(Suite):
     storage order; the per-storage chain and the StorageStream walk are the Coq theorems C07_hds_chain and
     C10_storage_read_correct."""
     name = "hdd_split"
-    per_case_timeout = 60.0
+    per_case_timeout = 20.0
     shard = 4
     preamble = ("From Coq Require Import ZArith List.\nImport ListNotations.\nOpen Scope Z_scope.\n"
                 "From DH Require Import Base.Plan Base.Table Model.Chain Model.Hds Proofs.Layers Model.Hdd.\n")
